@@ -39,7 +39,7 @@ W = {
     "midchange": 0.5,     # ... of which mid-measure
     "pickup": 0.3,
     "irregular": 0.15,
-    "voices": 1.0,        # more than one voice
+    "voices": 0.85,       # more than one voice
     "staves": 0.4,
     "attrs": 0.5,         # articulations, fingering, stem, fermata, explicit symbolic durations
     "unpitched": 0.08,
@@ -106,7 +106,7 @@ def note_attrs(rng, o):
             o["ferm"] = True
 
 
-def gen_voice_segment(rng, ids, objs, s, e, voice, staff, pending, poly, last_seg, ties_open, force_first=False):
+def gen_voice_segment(rng, ids, objs, s, e, voice, staff, pending, poly, last_seg, ties_open, force_first=False, mi=0, next_mi=0):
     """Fill [s, e) of one voice.  pending = (id, pitch) of a note tied into this segment or None.
     Returns the pending tie leaving the segment."""
     c = s
@@ -181,9 +181,11 @@ def gen_voice_segment(rng, ids, objs, s, e, voice, staff, pending, poly, last_se
         m0 = members[0]
         if m0["k"] == "note" and m0["e"] == e and not last_seg and rng.random() < W["tie"]:
             mp = midi_of(m0["step"], m0["alter"], m0["oct"])
-            # concurrently open ties of one part must have distinct pitches (quantifier)
-            if all(not (mp == p and a < e + 1 and m0["t"] < b + 1) for (p, a, b) in ties_open):
-                ties_open.append((mp, m0["t"], e))
+            # concurrently tied notes of one part have distinct pitches (quantifier).  MusicXML pairs
+            # ties by pitch in document order, so "concurrently" is taken measure-wise: two ties of
+            # one pitch never touch the same measure
+            if all(not (mp == p and a <= next_mi and mi <= b) for (p, a, b) in ties_open):
+                ties_open.append((mp, mi, next_mi))
                 out_pending = (m0["id"], (m0["step"], m0["alter"], m0["oct"]))
         adv = d
         if poly and rng.random() < 0.3:
@@ -278,7 +280,8 @@ def gen_part(rng, ids, pid):
             # voice 1 starts a note at every mid-measure segment start
             pending = gen_voice_segment(rng, ids, objs, s, e, v, staff, pending, poly,
                                         si == len(segments) - 1, ties_open,
-                                        force_first=(v == 1 and not nopoint))
+                                        force_first=(v == 1 and not nopoint), mi=mi,
+                                        next_mi=segments[si + 1][3] if si + 1 < len(segments) else mi)
     return part, segments
 
 
@@ -1048,8 +1051,74 @@ def features_of(spec):
     return f
 
 
+def nopoint_changes(ps):
+    """divisions changes strictly inside a measure at a time where the part has no time point"""
+    times = {0, ps["end"]}
+    for m in ps["measures"]:
+        times.update(m[:2])
+    for o in ps["objs"]:
+        for k in ("t", "e"):
+            if o.get(k) is not None:
+                times.add(o[k])
+    return [t for t, q in ps["qchanges"] if t not in times]
+
+
+def overlapping_ranges(ps):
+    r = [(o["t"], o["e"]) for o in ps["objs"] if o["k"] == "dir" and o.get("e") is not None]
+    return any(a < d and c < b for i, (a, b) in enumerate(r) for (c, d) in r[i + 1:])
+
+
 def register_matchers(ctx):
-    pass
+    def spec_parts(r):
+        return (r.get("spec") or {}).get("parts", [])
+
+    # K1: score.Words (a text direction the parser does not recognise) is never written
+    ctx.matchers["C03-K1"] = lambda r: (r.get("kind") == "O2" and ".words:" in r.get("what", "") and "after load []" in r.get("what", "")
+                                        and any(o["k"] == "dir" and o.get("text") == "spaghetti" for ps in spec_parts(r) for o in ps["objs"]))
+    # K2: divisions change inside a measure at a time without a TimePoint: the exporter does not split there
+    ctx.matchers["C03-K2"] = lambda r: (r.get("kind") in ("O1", "O2", "O3", "model", "O1-coq")
+                                        and any(nopoint_changes(ps) for ps in spec_parts(r)))
+    # K3: fermata on the right barline of a measure that is not the last: written on both sides
+    ctx.matchers["C03-K3"] = lambda r: (((r.get("kind") == "O2" and "barline_fermatas" in r.get("what", "")) or
+                                         (r.get("kind") == "O3" and "<fermata/>" in r.get("what", "")))
+                                        and any(o["k"] == "bferm" and o["ref"] == "right" and o["t"] != ps["end"]
+                                                for ps in spec_parts(r) for o in ps["objs"]))
+    # K4: wedges/dashes overlapping in time are numbered per segment (stops before starts), numbers can clash
+    ctx.matchers["C03-K4"] = lambda r: (((r.get("kind") == "O2" and ".directions:" in r.get("what", "")) or
+                                         (r.get("kind") == "O3" and ("wedge" in r.get("what", "") or "dashes" in r.get("what", ""))))
+                                        and any(overlapping_ranges(ps) for ps in spec_parts(r)))
+
+
+def simple_spec(notes, q0=4, end=16, qchanges=(), measures=None):
+    """hand-written / enumerated one-part spec; notes = [(t, e, voice)] (pitches differ per note)"""
+    objs = [{"k": "ts", "t": 0, "beats": 4, "bt": 4}]
+    for i, (t, e, v) in enumerate(notes):
+        objs.append({"k": "note", "id": "n%d" % (i + 1), "t": t, "e": e, "step": STEPS[i % 7], "alter": None,
+                     "oct": 3 + (i // 7), "voice": v, "staff": 1})
+    return {"parts": [{"id": "P1", "name": "P", "abbr": None, "q0": q0, "qchanges": [list(x) for x in qchanges],
+                       "measures": measures or [[0, end, 1, "1"]], "objs": objs, "nstaves": 1,
+                       "poly": True, "end": end}], "struct": [0]}
+
+
+def corpus_specs():
+    """witnesses of the repaired defects and the cases the property text singles out"""
+    return [
+        simple_spec([(0, 16, 1), (0, 4, 2), (8, 12, 2)]),                              # D05: gap in voice 2
+        simple_spec([(0, 4, 1), (16, 20, 1)], end=32, measures=[[0, 16, 1, "1"], [16, 32, 2, "2"]]),   # trailing gap: extent
+        simple_spec([(0, 4, 1), (8, 24, 1), (4, 6, 2), (16, 24, 2)], end=24, qchanges=[(8, 8)]),       # mid-measure divisions, voice 2 ends early
+        simple_spec([(0, 8, 1), (0, 4, 1), (4, 8, 1), (2, 6, 1)], end=8),                          # in-voice polyphony
+        simple_spec([(4, 8, 3), (12, 16, 3)]),                                                 # only voice 3, leading gap
+        simple_spec([], end=16),                                                               # empty measure
+    ]
+
+
+def exhaustive_specs():
+    """small scope, complete: every set of 1..3 notes on a 4-tick measure in 2 voices"""
+    import itertools
+    kinds = [(t, e, v) for t in range(4) for e in range(t + 1, 5) for v in (1, 2)]
+    for k in (1, 2, 3):
+        for combo in itertools.combinations(kinds, k):
+            yield simple_spec(list(combo), q0=2, end=4)
 
 
 def run(ctx):
@@ -1067,8 +1136,14 @@ def run(ctx):
     n_scores = 150 if ctx.tier == "quick" else 2500
     mcases, pcases = [], []
     nviol = 0
-    for i in range(n_scores):
-        spec = gen_spec(ctx.rng)
+    fixed = corpus_specs()
+    if ctx.tier != "quick":
+        fixed += list(exhaustive_specs())
+        ctx.extra["exhaustive_note"] = ("small scope enumerated completely in the thorough tier: every set of 1..3 notes "
+                                        "(onset 0..3, end <= 4, voice 1..2) in one 4-tick measure: %d scores" % (len(fixed) - len(corpus_specs())))
+    ctx.count("corpus+enumerated", len(fixed))
+    for i in range(len(fixed) + n_scores):
+        spec = fixed[i] if i < len(fixed) else gen_spec(ctx.rng)
         o = check_spec(spec)
         ctx.evaluations += 1
         feats = features_of(spec)
@@ -1076,7 +1151,7 @@ def run(ctx):
             ctx.count("feature:" + f)
         if feats & {"multi-voice", "grace", "tie", "divchange", "poly"}:
             ctx.nontrivial(json.dumps(spec, sort_keys=True))
-        if i < 2:
+        if len(fixed) <= i < len(fixed) + 2:
             ctx.sample({"spec_part0_objs": spec["parts"][0]["objs"][:6], "measures": spec["parts"][0]["measures"]})
         kinds = []
         for k, txt in o.problems:
